@@ -7,8 +7,8 @@ package main
 
 import (
 	"fmt"
-	"math/rand/v2"
 	"math"
+	"math/rand/v2"
 	"net"
 	"net/http"
 	"net/url"
@@ -192,7 +192,7 @@ func result(ip *net.IPAddr, err error) string {
 func main() {
 	run := kit.Start("C18", rule)
 	defer run.Finish()
-	n := run.Pick(20000, 4000000)
+	n := run.Pick(20000, 10000000)
 	run.Parallel(n/500, func(b int) {
 		r := run.Rand(uint64(b))
 		for i := 0; i < 500; i++ {
@@ -256,7 +256,7 @@ func independence(run *kit.Run) {
 			}
 		}
 	}
-	rounds := run.Pick(200, 5000)
+	rounds := run.Pick(200, 20000)
 	r := run.Rand(4242)
 	var all []*built
 	for round := 0; round < rounds; round++ {
